@@ -161,6 +161,10 @@ def jobs(tier):
     states = [(0.0, 0.0, 0.0), (-2.0, 1.0, 2.0), (1.5, 0.0, -3.0)]
     if tier != 'quick':
         states += [(0.0, 1.0, 2.0), (-2.0, 0.0, -3.0), (1.5, 1.0, 0.0), (-4.0, 3.0, 1.0)]
+    from harness import c06b
+    for pol in ('pch', 'psd', 'psw'):      # the ROADM target the booster is designed against: own per-degree setting, else the node default
+        js.append(dict(name=f'H9f:roadm_per_degree_target_used_by_the_design:{pol}', module='harness.c06b', fn='h_per_degree_targets',
+                       params=dict(policy=pol), cost=5))
     js.append(dict(name='H9c:oms_telescoping:power_mode:from_transceiver', fn='h_oms_telescoping', params=dict(mode='power', start='transceiver'),
                    cost=100, budget_s=200 if tier == 'quick' else 600))
     js.append(dict(name='H9e:spliced_span_offset_rule', fn='h_spliced_span_rule', cost=60, budget_s=200 if tier == 'quick' else 600))
